@@ -30,7 +30,8 @@ pub enum Call {
     ReadAll(&'static str),
 }
 
-/// Result of one call as a caller sees it (error kinds are not compared, see DESIGN C16).
+/// Result of one call as a caller sees it, error kind included (a kind that no sequential run
+/// produces is a stale answer, e.g. DirectoryExists where only a file ever existed).
 #[derive(Clone, Debug, PartialEq, Eq, Hash, PartialOrd, Ord)]
 pub enum Res {
     Unit,
@@ -38,28 +39,96 @@ pub enum Res {
     Meta(u8, u64),
     List(Vec<String>),
     Bytes(Vec<u8>),
-    Err,
+    Err(Kind),
     NoHandle,
+}
+
+/// Path-level calls (`VfsPath::create_dir` = parent lookup + filesystem call, …) are not atomic
+/// and nobody promises that: a call that loses a race may fail in any of its steps, so their
+/// error kinds are not compared (tried: the unchanged tree then "fails" in thousands of ways).
+fn ek(_e: vfs::VfsError) -> Res {
+    Res::Err(Kind::Other)
+}
+
+/// Filesystem-trait-level calls are single critical sections: the error kind is part of the answer.
+fn ekf(e: vfs::VfsError) -> Res {
+    Res::Err(einfo(&e).kind)
+}
+
+/// The same calls made directly on the `FileSystem` trait of MemoryFS.
+fn exec_call_fs(fs: &dyn vfs::FileSystem, c: &Call, handle: &mut Option<Box<dyn vfs::SeekAndWrite + Send>>) -> Res {
+    use std::io::{Read, Write};
+    match c {
+        Call::CreateDir(p) => fs.create_dir(p).map(|_| Res::Unit).unwrap_or_else(ekf),
+        Call::OpenCreate(p) => match fs.create_file(p) {
+            Ok(h) => {
+                *handle = Some(h);
+                Res::Unit
+            }
+            Err(e) => ekf(e),
+        },
+        Call::OpenAppend(p) => match fs.append_file(p) {
+            Ok(h) => {
+                *handle = Some(h);
+                Res::Unit
+            }
+            Err(e) => ekf(e),
+        },
+        Call::WriteClose(b) => match handle.take() {
+            Some(mut h) => {
+                let r = h.write_all(b);
+                drop(h);
+                if r.is_ok() {
+                    Res::Unit
+                } else {
+                    Res::Err(Kind::Io)
+                }
+            }
+            None => Res::NoHandle,
+        },
+        Call::RemoveFile(p) => fs.remove_file(p).map(|_| Res::Unit).unwrap_or_else(ekf),
+        Call::RemoveDir(p) => fs.remove_dir(p).map(|_| Res::Unit).unwrap_or_else(ekf),
+        Call::Exists(p) => fs.exists(p).map(Res::Bool).unwrap_or_else(ekf),
+        Call::Metadata(p) => fs.metadata(p).map(|m| Res::Meta(m.file_type as u8, m.len)).unwrap_or_else(ekf),
+        Call::ReadDir(p) => match fs.read_dir(p) {
+            Ok(it) => {
+                let mut v: Vec<String> = it.collect();
+                v.sort();
+                Res::List(v)
+            }
+            Err(e) => ekf(e),
+        },
+        Call::ReadAll(p) => match fs.open_file(p) {
+            Ok(mut h) => {
+                let mut b = vec![];
+                match h.read_to_end(&mut b) {
+                    Ok(_) => Res::Bytes(b),
+                    Err(_) => Res::Err(Kind::Io),
+                }
+            }
+            Err(e) => ekf(e),
+        },
+    }
 }
 
 fn exec_call(root: &VfsPath, c: &Call, handle: &mut Option<Box<dyn vfs::SeekAndWrite + Send>>) -> Res {
     use std::io::Write;
     let at = |p: &str| root.join(&p[1..]).unwrap();
     match c {
-        Call::CreateDir(p) => at(p).create_dir().map(|_| Res::Unit).unwrap_or(Res::Err),
+        Call::CreateDir(p) => at(p).create_dir().map(|_| Res::Unit).unwrap_or_else(ek),
         Call::OpenCreate(p) => match at(p).create_file() {
             Ok(h) => {
                 *handle = Some(h);
                 Res::Unit
             }
-            Err(_) => Res::Err,
+            Err(e) => ek(e),
         },
         Call::OpenAppend(p) => match at(p).append_file() {
             Ok(h) => {
                 *handle = Some(h);
                 Res::Unit
             }
-            Err(_) => Res::Err,
+            Err(e) => ek(e),
         },
         Call::WriteClose(b) => match handle.take() {
             Some(mut h) => {
@@ -70,24 +139,24 @@ fn exec_call(root: &VfsPath, c: &Call, handle: &mut Option<Box<dyn vfs::SeekAndW
                 if r.is_ok() {
                     Res::Unit
                 } else {
-                    Res::Err
+                    Res::Err(Kind::Io)
                 }
             }
             None => Res::NoHandle,
         },
-        Call::RemoveFile(p) => at(p).remove_file().map(|_| Res::Unit).unwrap_or(Res::Err),
-        Call::RemoveDir(p) => at(p).remove_dir().map(|_| Res::Unit).unwrap_or(Res::Err),
-        Call::Exists(p) => at(p).exists().map(Res::Bool).unwrap_or(Res::Err),
-        Call::Metadata(p) => at(p).metadata().map(|m| Res::Meta(m.file_type as u8, m.len)).unwrap_or(Res::Err),
+        Call::RemoveFile(p) => at(p).remove_file().map(|_| Res::Unit).unwrap_or_else(ek),
+        Call::RemoveDir(p) => at(p).remove_dir().map(|_| Res::Unit).unwrap_or_else(ek),
+        Call::Exists(p) => at(p).exists().map(Res::Bool).unwrap_or_else(ek),
+        Call::Metadata(p) => at(p).metadata().map(|m| Res::Meta(m.file_type as u8, m.len)).unwrap_or_else(ek),
         Call::ReadDir(p) => match at(p).read_dir() {
             Ok(it) => {
                 let mut v: Vec<String> = it.map(|c| c.as_str().to_string()).collect();
                 v.sort();
                 Res::List(v)
             }
-            Err(_) => Res::Err,
+            Err(e) => ek(e),
         },
-        Call::ReadAll(p) => PathApi::read_all(&at(p)).map(Res::Bytes).unwrap_or(Res::Err),
+        Call::ReadAll(p) => PathApi::read_all(&at(p)).map(Res::Bytes).unwrap_or(Res::Err(Kind::Other)),
     }
 }
 
@@ -95,10 +164,14 @@ fn exec_call(root: &VfsPath, c: &Call, handle: &mut Option<Box<dyn vfs::SeekAndW
 pub struct LinProgram {
     pub init: Vec<(String, Node)>,
     pub threads: Vec<Vec<Call>>,
+    /// calls go straight to MemoryFS's `FileSystem` methods (results include error kinds)
+    pub trait_level: bool,
 }
 
 pub struct LinSys {
     built: Built,
+    /// the same MemoryFS instance, for calls on the `FileSystem` trait itself
+    fs: SharedFs,
 }
 
 const LIN_PROBES: [&str; 3] = ["/a", "/a/f", "/b"];
@@ -122,14 +195,14 @@ impl Program for LinProgram {
         self.threads.len()
     }
     fn setup(&self) -> LinSys {
-        LinSys {
-            built: build(&Cfg::Mem, Order::Native, &vec![(0, self.init.clone())]),
-        }
+        let built = build(&Cfg::Mem, Order::Native, &vec![(0, self.init.clone())]);
+        let fs = built.mem_fs.clone().expect("HARNESS: MemoryFS handle");
+        LinSys { built, fs }
     }
     fn run_thread(&self, sys: &LinSys, i: usize, rec: &Mutex<Vec<Res>>) {
         let mut handle = None;
         for c in &self.threads[i] {
-            let r = exec_call(&sys.built.root, c, &mut handle);
+            let r = if self.trait_level { exec_call_fs(sys.fs.0.as_ref(), c, &mut handle) } else { exec_call(&sys.built.root, c, &mut handle) };
             rec.lock().unwrap().push(r);
         }
         drop(handle);
@@ -173,7 +246,7 @@ fn sequential_outcomes(p: &LinProgram) -> BTreeSet<Outcome16> {
         for t in order {
             let c = &p.threads[t][pos[t]];
             pos[t] += 1;
-            let r = exec_call(&sys.built.root, c, &mut handles[t]);
+            let r = if p.trait_level { exec_call_fs(sys.fs.0.as_ref(), c, &mut handles[t]) } else { exec_call(&sys.built.root, c, &mut handles[t]) };
             recs[t].push(r);
             if pos[t] == lens[t] {
                 handles[t] = None; // the thread ends: its handle is dropped
@@ -249,7 +322,8 @@ pub fn run_c16(ctx: &Ctx) -> i32 {
     let full = items(&["/a", "/a/f", "/b"], true);
     for init in inits16() {
         for ms in multisets(full.len(), 2) {
-            programs.push(("2 threads x 1 call/session".into(), LinProgram { init: init.clone(), threads: ms.iter().map(|i| full[*i].clone()).collect() }));
+            programs.push(("2 threads x 1 call/session".into(), LinProgram { init: init.clone(), threads: ms.iter().map(|i| full[*i].clone()).collect(), trait_level: false }));
+            programs.push(("FileSystem-trait level: 2 threads x 1 call/session".into(), LinProgram { init: init.clone(), threads: ms.iter().map(|i| full[*i].clone()).collect(), trait_level: true }));
         }
     }
     if !thorough {
@@ -261,7 +335,7 @@ pub fn run_c16(ctx: &Ctx) -> i32 {
                     let mut two = a.clone();
                     two.extend(b.iter().cloned());
                     for c in &muts {
-                        programs.push(("2 threads x (2,1) mutating calls/sessions on {/a,/a/f}".into(), LinProgram { init: init.clone(), threads: vec![two.clone(), c.clone()] }));
+                        programs.push(("2 threads x (2,1) mutating calls/sessions on {/a,/a/f}".into(), LinProgram { init: init.clone(), threads: vec![two.clone(), c.clone()], trait_level: false }));
                     }
                 }
             }
@@ -271,7 +345,7 @@ pub fn run_c16(ctx: &Ctx) -> i32 {
         // class B: 3 threads x 1 call-or-session, full alphabet
         for init in inits16() {
             for ms in multisets(full.len(), 3) {
-                programs.push(("3 threads x 1 call/session".into(), LinProgram { init: init.clone(), threads: ms.iter().map(|i| full[*i].clone()).collect() }));
+                programs.push(("3 threads x 1 call/session".into(), LinProgram { init: init.clone(), threads: ms.iter().map(|i| full[*i].clone()).collect(), trait_level: false }));
             }
         }
         // class C: 2 threads x 2 calls/sessions over the reduced alphabet (mutators on {/a, /a/f} + 2 observers)
@@ -286,12 +360,13 @@ pub fn run_c16(ctx: &Ctx) -> i32 {
         }
         for init in inits16() {
             for ms in multisets(seqs.len(), 2) {
-                programs.push(("2 threads x 2 calls/sessions (reduced alphabet)".into(), LinProgram { init: init.clone(), threads: ms.iter().map(|i| seqs[*i].clone()).collect() }));
+                programs.push(("2 threads x 2 calls/sessions (reduced alphabet)".into(), LinProgram { init: init.clone(), threads: ms.iter().map(|i| seqs[*i].clone()).collect(), trait_level: false }));
             }
             // 2 threads: one with 2 items, one with 1 item from the full alphabet
             for s in &seqs {
                 for f in &full {
-                    programs.push(("2 threads x (2,1) calls/sessions".into(), LinProgram { init: init.clone(), threads: vec![s.clone(), f.clone()] }));
+                    programs.push(("FileSystem-trait level: 2 threads x (2,1) calls/sessions".into(), LinProgram { init: init.clone(), threads: vec![s.clone(), f.clone()], trait_level: true }));
+                    programs.push(("2 threads x (2,1) calls/sessions".into(), LinProgram { init: init.clone(), threads: vec![s.clone(), f.clone()], trait_level: false }));
                 }
             }
         }
@@ -418,7 +493,9 @@ impl Program for MkdirProgram {
         self.paths.len()
     }
     fn setup(&self) -> LinSys {
-        LinSys { built: build(&self.cfg, Order::Asc, &self.init) }
+        let built = build(&self.cfg, Order::Asc, &self.init);
+        let fs = built.mem_fs.clone().unwrap_or_else(|| SharedFs(std::sync::Arc::new(vfs::MemoryFS::new())));
+        LinSys { built, fs }
     }
     fn run_thread(&self, sys: &LinSys, i: usize, rec: &Mutex<Vec<bool>>) {
         let r = sys.built.root.join(self.paths[i]).unwrap().create_dir_all();
